@@ -2156,31 +2156,16 @@ func checkWriteAtOffsetAdvances(c *Ctx, rule string) {
 			c.check(okSum, rule, key, p.Pos(call.Pos()), "one WriteAt at offset+written", "the leaf is written at `"+d+"`, not at the leaf's offset plus what this writer already wrote")
 			return true
 		}
-		// what the offset expression reads, locals defined outside the loop followed to their definitions
-		reads := map[string]bool{}
-		var collect func(e ast.Expr, depth int)
-		collect = func(e ast.Expr, depth int) {
-			ast.Inspect(e, func(m ast.Node) bool {
-				switch x := m.(type) {
-				case *ast.SelectorExpr:
-					reads[describeExpr(f, x, 0)] = true
-					return false
-				case *ast.Ident:
-					if v, ok := info.Uses[x].(*types.Var); ok {
-						reads["var:"+v.Name()] = true
-						if depth < 3 {
-							for _, df := range defsOfVarWithIndex(f, v) {
-								if df.rhs != nil && !encloses(loop, df.start) {
-									collect(df.rhs, depth+1)
-								}
-							}
-						}
-					}
-				}
-				return true
-			})
-		}
-		collect(call.Args[1], 0)
+		// what the offset expression reads directly at the call: a local computed before the loop is frozen, whatever it
+		// was computed from
+		direct := map[string]bool{}
+		ast.Inspect(call.Args[1], func(m ast.Node) bool {
+			if x, ok := m.(*ast.SelectorExpr); ok {
+				direct[describeExpr(f, x, 0)] = true
+				return false
+			}
+			return true
+		})
 		advances := false
 		ast.Inspect(loop, func(m ast.Node) bool {
 			var lhs []ast.Expr
@@ -2193,57 +2178,17 @@ func checkWriteAtOffsetAdvances(c *Ctx, rule string) {
 			for _, l := range lhs {
 				switch x := ast.Unparen(l).(type) {
 				case *ast.SelectorExpr:
-					if reads[describeExpr(f, x, 0)] {
+					if direct[describeExpr(f, x, 0)] {
 						advances = true
 					}
 				case *ast.Ident:
-					if v, ok := info.ObjectOf(x).(*types.Var); ok && reads["var:"+v.Name()] {
-						// only a variable the offset reads at the call (not one frozen into a local before the loop)
-						if mentions(call.Args[1], func(e ast.Expr) bool { return isVar(info, e, v) }) {
-							advances = true
-						}
+					if v, ok := info.ObjectOf(x).(*types.Var); ok && mentions(call.Args[1], func(e ast.Expr) bool { return isVar(info, e, v) }) {
+						advances = true
 					}
 				}
 			}
 			return true
 		})
-		// a field read only through a local frozen before the loop does not count: re-check with direct reads
-		direct := map[string]bool{}
-		ast.Inspect(call.Args[1], func(m ast.Node) bool {
-			if x, ok := m.(*ast.SelectorExpr); ok {
-				direct[describeExpr(f, x, 0)] = true
-				return false
-			}
-			return true
-		})
-		if advances {
-			frozenOnly := true
-			ast.Inspect(loop, func(m ast.Node) bool {
-				var lhs []ast.Expr
-				switch s := m.(type) {
-				case *ast.AssignStmt:
-					lhs = s.Lhs
-				case *ast.IncDecStmt:
-					lhs = []ast.Expr{s.X}
-				}
-				for _, l := range lhs {
-					switch x := ast.Unparen(l).(type) {
-					case *ast.SelectorExpr:
-						if direct[describeExpr(f, x, 0)] {
-							frozenOnly = false
-						}
-					case *ast.Ident:
-						if v, ok := info.ObjectOf(x).(*types.Var); ok && mentions(call.Args[1], func(e ast.Expr) bool { return isVar(info, e, v) }) {
-							frozenOnly = false
-						}
-					}
-				}
-				return true
-			})
-			if frozenOnly {
-				advances = false
-			}
-		}
 		c.check(advances, rule, key, p.Pos(call.Pos()), "the offset of the repeated WriteAt advances with the loop",
 			"WriteAt is repeated in a loop at `"+exprString(call.Args[1])+"`, which nothing in the loop updates: every continuation of a short write lands at the start offset again, so the destination misses bytes while the full count is reported")
 		return true
@@ -2251,4 +2196,39 @@ func checkWriteAtOffsetAdvances(c *Ctx, rule string) {
 	if n == 0 {
 		c.shape3(rule, f.ID, "cafsWriterAt.Write no longer calls WriteAt")
 	}
+}
+
+func init() {
+	addWitness(witness{Prop: "C07", Name: "failed-key-page-retried-with-clobbered-token", File: "pkg/core/keys.go",
+		Old:    "\t\tks, next, err = iterator(next)\n\t\tif err != nil {\n",
+		New:    "\t\tfor attempt := 0; attempt < 2; attempt++ {\n\t\t\tks, next, err = iterator(next)\n\t\t\tif err == nil {\n\t\t\t\tbreak\n\t\t\t}\n\t\t}\n\t\tif err != nil {\n",
+		Expect: "token-feedback-not-retried"})
+	addWitness(witness{Prop: "C07", Name: "first-key-of-page-dropped", File: "pkg/core/keys.go",
+		Old:    "\t\tif len(ks) > 0 {\n\t\t\tselect {\n\t\t\tcase keyBatchChan <- keyBatchEvent{keys: ks}:\n",
+		New:    "\t\tif len(ks) > 1 && ks[0] == next {\n\t\t\tks = ks[1:]\n\t\t}\n\t\tif len(ks) > 0 {\n\t\t\tselect {\n\t\t\tcase keyBatchChan <- keyBatchEvent{keys: ks}:\n",
+		Expect: "fetch-keys-forwards-pages"})
+	addWitness(witness{Prop: "C19", Name: "stored-entry-trimmed-before-decoding", File: "pkg/wal/wal.go",
+		Old:    "\tentry, err := model.UnmarshalWAL(b)\n",
+		New:    "\tentry, err := model.UnmarshalWAL([]byte(strings.TrimSpace(string(b))))\n",
+		Expect: "wal-decodes-what-it-read"})
+	addWitness(witness{Prop: "C15", Name: "entry-list-grown-as-index-files-arrive", File: "pkg/core/bundle_unpack.go",
+		Old:    "\tbundle.BundleEntries = make([]model.BundleEntry, maxBundleEntries)\n",
+		New:    "\tbundle.BundleEntries = make([]model.BundleEntry, 0, maxBundleEntries)\n",
+		Expect: "entries-preallocated"})
+	addWitness(witness{Prop: "C14", Name: "delete-unused-refuses-an-empty-index", File: "pkg/core/purge.go",
+		Old:    "\t// 2. Scan all keys in blob store\n",
+		New:    "\tif numKeys == 0 {\n\t\treturn nil, fmt.Errorf(\"empty index\")\n\t}\n\t// 2. Scan all keys in blob store\n",
+		Expect: "purge-fails-only-on-error"})
+	addWitness(witness{Prop: "C17", Name: "directory-entries-permuted-after-offsets", File: "pkg/fuse/fs_ro_ops.go",
+		Old:    "\ttxns.commitToFS(fs)\n\n\tfs.isReadOnly = true\n",
+		New:    "\tfor _, children := range fs.readDirMap {\n\t\tif len(children) > 1 && children[0].Name > children[1].Name {\n\t\t\tchildren[0], children[1] = children[1], children[0]\n\t\t}\n\t}\n\ttxns.commitToFS(fs)\n\n\tfs.isReadOnly = true\n",
+		Expect: "dirents-append-only"})
+	addWitness(witness{Prop: "C02", Name: "leaf-size-rounded-by-the-constructor", File: "pkg/cafs/cafs.go",
+		Old:    "\tconst buffersForparallelReaders = 3\n",
+		New:    "\tf.leafSize += (KeySize - f.leafSize%KeySize) % KeySize\n\tconst buffersForparallelReaders = 3\n",
+		Expect: "leaf-size-only-from-options"})
+	addWitness(witness{Prop: "C05", Name: "metadata-pattern-matches-nested-directories", File: "pkg/model/bundle.go",
+		Old:    "metaRe = regexp.MustCompile(`^\\.datamon/(.*)\\.yaml$`)",
+		New:    "metaRe = regexp.MustCompile(`(?:^|/)\\.datamon/(.*)\\.yaml$`)",
+		Expect: "meta-regexp-anchored"})
 }
